@@ -66,10 +66,10 @@ impl HybridImpressionInfo {
     }
 
     /// ## Errors
-    /// If deserialization fails, including when the input is empty.
+    /// If deserialization fails: the input must be exactly the one byte written by `to_bytes`.
     pub fn from_bytes(bytes: &[u8]) -> Result<Self, InvalidHybridReportError> {
-        let Some(&key_id) = bytes.first() else {
-            return Err(InvalidHybridReportError::Length(0, 1));
+        let &[key_id] = bytes else {
+            return Err(InvalidHybridReportError::Length(bytes.len(), 1));
         };
         Ok(Self { key_id })
     }
